@@ -92,22 +92,6 @@ Proof.
   - exists m. auto.
 Qed.
 
-(* the registry entry of <path of q>.<n> is a child of q named n *)
-Lemma entry_parent : forall s q pq n x, Inv s -> reg s q -> fullpath s q = Some pq -> rget (pq ++ [n]) (allobj s) = Some x ->
-    oparent (store s x) = Some q /\ oname (store s x) = n.
-Proof.
-  intros s q pq n x HI Hq Hpq Hx. assert (Hrx : reg s x) by (exists (pq ++ [n]); exact Hx).
-  assert (Hp := inv_I1 s HI _ _ Hx). destruct (oparent (store s x)) as [q'|] eqn:E.
-  - assert (Hq' : reg s q') by (eapply (inv_par s HI); eauto).
-    destruct (reg_self s HI q' Hq') as [pq' [Hpq' _]].
-    rewrite (reg_child_path s HI x q' pq' Hrx E Hpq') in Hp. inversion Hp as [Heq].
-    apply app_inj_tail in Heq. destruct Heq as [Heq Hn]. split; [|exact Hn].
-    f_equal. apply (path_inj s HI q' q pq' Hq' Hq Hpq'). rewrite Heq. exact Hpq.
-  - apply (fullpath_f_root _ _ _ _ E) in Hp. exfalso.
-    apply (f_equal (@length name)) in Hp. rewrite app_length in Hp. cbn in Hp.
-    apply fullpath_f_nonempty in Hpq. destruct pq; [apply Hpq; reflexivity | cbn in Hp; lia].
-Qed.
-
 (* ------------------------------------------------------------------ addObject does not raise *)
 Lemma add_object_child_total : forall s ob q n pq,
     Inv s -> ob < next s -> ~ reg s ob -> oparent (store s ob) = Some q -> oname (store s ob) = n -> reg s q ->
@@ -214,16 +198,32 @@ Proof.
       assert (Hex : existsb (N.eqb first) (unproc s1) = true).
       { rewrite Hunp. apply existsb_exists. exists first. split; [exact Hinu | apply N.eqb_refl]. }
       rewrite Hex. cbn [negb]. cbv iota.
-      match goal with |- context [fullpath ?X ob] => assert (Hfp' : fullpath X ob = Some (pq ++ [n])) by exact Hobp end.
-      rewrite Hfp'. clear Hfp'.
       assert (Hcov1 : covered s1 first).
       { apply (covered_frame s s1 first HI Ha1); [|exact Hcov].
         intros o Ho. rewrite Hoth; [apply same_core_refl|]. intros E. apply Hun. apply Hreg. rewrite <- E. exact Ho. }
-      rewrite <- Ha1 in Ef. rewrite (rm_fn_free s1 n pq HI1 first T m1 Ef Hcov1 HT Hm1).
-      unfold add_object. cbn [store set_unproc set_allobj]. rewrite Hop, Hon.
-      unfold fullpath. cbn [store depthb set_store set_unproc set_allobj].
-      rewrite (st1_fullpath s1 ob q n). unfold fullpath in Hobp. rewrite Hobp.
-      cbn [allobj set_store set_unproc set_allobj]. rewrite (rm_fn_free s1 n pq HI1 first T m1 Ef Hcov1 HT Hm1). eauto.
+      rewrite <- Ha1 in Ef.
+      assert (Hfree : rget (pq ++ [n]) m1 = None) by (apply (rm_fn_free s1 n pq HI1 first T m1 Ef Hcov1 HT Hm1)).
+      assert (Hfin : forall st0 r r',
+                 (forall x, oname (st0 x) = oname (store s1 x) /\ oparent (st0 x) = oparent (store s1 x)) ->
+                 exists s',
+                 match fullpath (mkState st0 (next s1) m1 (roots s1) (depthb s1) r) ob with
+                 | Some fn' => match rget fn' m1 with
+                               | Some _ => None
+                               | None => add_object (mkState st0 (next s1) m1 (roots s1) (depthb s1) r') ob
+                               end
+                 | None => None
+                 end = Some s').
+      { intros st0 r r' Hnp.
+        assert (Hf0 : forall F x, fullpath_f F st0 x = fullpath_f F (store s1) x)
+          by (intros F x; apply fullpath_f_ext; exact Hnp).
+        unfold fullpath. cbn [store depthb]. rewrite Hf0. unfold fullpath in Hobp. rewrite Hobp. rewrite Hfree.
+        unfold add_object. cbn [store]. destruct (Hnp ob) as [N1 N2]. rewrite N2, Hop, N1, Hon.
+        unfold fullpath. cbn [store depthb set_store].
+        rewrite (fullpath_f_ext st0); [|intros y; unfold upd; destruct (N.eqb y q) eqn:E; [apply N.eqb_eq in E; subst y|]; cbn; auto].
+        rewrite Hf0, Hobp. cbn [allobj set_store]. rewrite Hfree. eauto. }
+      destruct (oparent (store s first)) as [p|]; [|apply Hfin; auto].
+      destruct (cget (oname (store s first)) (ocont (store s1 p))) as [x|]; [destruct (N.eqb x first)|]; try (apply Hfin; auto).
+      intros y. cbn [store set_store]. unfold upd. destruct (N.eqb y p) eqn:E; [apply N.eqb_eq in E; subst y; cbn; auto | auto].
     + assert (HI1u : Inv (set_unproc s1 (unproc s1 ++ [ob])))
         by (apply (Inv_frame s1); cbn; auto; try lia; intros; apply same_core_refl).
       apply (add_object_child_total (set_unproc s1 (unproc s1 ++ [ob])) ob q n pq HI1u Hlt Hun Hop Hon).
